@@ -13,10 +13,11 @@ import RV.Base.SetList
     rdf:rest, rdf:nil.  The model has no notion of truthiness: every member is an
     ordinary term.  (Cells are assumed truthy nodes, as `if c:` / `while list:` test them.)
   * `BNode()` is an explicit supply `St.fresh`.
-  * Walks that are `while` loops in Python take fuel; `Lemmas.lean` shows the fuel
-    `|g| + 2` is never exhausted by `items`/`index` on *any* graph (cycle guard) and
-    by every walk on a well-formed chain.  `Err.fuel` therefore stands for "the real
-    loop does not terminate" (only `_end`, i.e. append/+= on a cyclic chain).
+  * Walks that are `while` loops in Python take fuel `|g| + 2`; `LemmasTotal.lean` shows
+    it is never exhausted by `items`/`index` on *any* graph (cycle guard), `Lemmas.lean`
+    and `LemmasOps.lean` that it suffices for every walk on a well-formed chain.
+    `Err.fuel` therefore stands for "the real loop does not terminate" (only `_end`,
+    i.e. append/+= on a cyclic chain — outside the property).
   * Mutations that fail half-way on a malformed chain (Graph.set asserting on a
     `None` object …) return the error and the unchanged graph; the property does not
     speak about writes to malformed chains.
